@@ -356,6 +356,10 @@ rule keyin {
   Resources[ keys in ['b1', 'b2', 't1', 'c1'] ].Properties.Name == 'zzz'
   Resources[ keys not in ['b1'] ].Properties.Size < 0
 }
+rule qq {
+  Resources.*.Properties.Name not in Allowed[*]
+  Resources.*.Properties.Name != Allowed[*]
+}
 rule kappa when !alpha {
   a exists
 }
@@ -368,7 +372,7 @@ DATA = """{"Resources": {
   "b2": {"Type": "AWS::S3::Bucket", "Properties": {"Name": "d", "Size": 5, "Tags": [{"Key": "k3"}]}},
   "t1": {"Type": "AWS::SNS::Topic", "Properties": {"Name": "b", "Size": 2}},
   "c1": {"Type": "AWS::EC2::Instance", "Properties": {"Name": "c", "Size": 9}}
-}}
+}, "Allowed": ["a", "b", "c", "zz"]}
 """
 # key-case conversion: keys that are not present verbatim, with several case variants next to each other
 RULES_K = """rule variants {
